@@ -7,6 +7,7 @@ CONSTANTS
   Fix_LinksToAll = TRUE
   Fix_ServeAll = FALSE
   Fix_PairByRequest = TRUE
+  Fix_NoPayloadCache = TRUE
 INVARIANT Pairing
 INVARIANT CompleteAtReturn
 INVARIANT CallbackAtMostOnce
